@@ -1,5 +1,6 @@
 import Driver.Util
 import LiquidVerif.Model.Mode
+import LiquidVerif.Model.ModeAsync
 open Lean LiquidVerif.Mode
 
 namespace Driver.C03
@@ -17,6 +18,10 @@ def tagTable (name : String) : TagKind :=
   else if name == "capture" then .capture "endcapture"
   else if name == "if" then .cond "endif" false
   else if name == "unless" then .cond "endunless" true
+  else if name == "case" then .case_ "endcase"
+  else if name == "with" then .scoped "endwith"
+  else if name == "tablerow" then .scoped "endtablerow"
+  else if name == "ifchanged" then .plain "endifchanged"
   else .unknown
 
 def parseBeh (j : Json) : Option PBeh :=
@@ -71,6 +76,11 @@ partial def shape : Node Unit → String
   | .condBlock _ b => "K(" ++ shapes b ++ ")"
   | .loop _ b d => "F(" ++ shapes b ++ "|" ++ shapes d ++ ")"
   | .capture _ b => "A(" ++ shapes b ++ ")"
+  | .case_ _ bs => "W(" ++ shapes bs ++ ")"
+  | .whenBlock _ b => "M(" ++ shapes b ++ ")"
+  | .elseBlock b => "L(" ++ shapes b ++ ")"
+  | .scoped _ b => "Y(" ++ shapes b ++ ")"
+  | .block b => "G(" ++ shapes b ++ ")"
 partial def shapes (ns : List (Node Unit)) : String := String.join (ns.map shape)
 end
 
@@ -89,7 +99,12 @@ def runOne (m : Mode) (nest depth : Nat) (wt : List (String × String)) (sc : Li
     | .parseError e => Json.mkObj [("parse_err", jstr e)]
     | .renderError e log => Json.mkObj ([("render_err", jstr e)] ++ logJson log)
     | .interrupt => Json.mkObj [("interrupt", Json.bool true)]
-  Json.mkObj [("parse", parsed), ("run", ran)]
+  let aran : Json := match runAsync cfg toks () with
+    | .ok out log => Json.mkObj ([("ok", jstr out)] ++ logJson log)
+    | .parseError e => Json.mkObj [("parse_err", jstr e)]
+    | .renderError e log => Json.mkObj ([("render_err", jstr e)] ++ logJson log)
+    | .interrupt => Json.mkObj [("interrupt", Json.bool true)]
+  Json.mkObj [("parse", parsed), ("run", ran), ("arun", aran)]
 
 /-- `["c03run", nestLimit, depthLimit, warnTable, syntaxClasses, tokens, partials]`
     → `{strict, warn, lax}` each with the parse outcome (shape, log) and the run outcome -/
